@@ -206,7 +206,10 @@ def parse(cls: str, data: Optional[bytes]) -> Tuple[str, Any]:
         if cls == "manifest_list":
             return ("ok", repr(reader.read_manifest_list(view, "f")))
         if cls == "manifest":
-            return ("ok", repr(reader.read_manifest(view, "f")))
+            # what a read consumes of a manifest: the data-file records.  The per-entry bookkeeping (status, adding
+            # snapshot, sequence numbers) decides nothing about the rows a scan returns, so damage confined to it
+            # leaves the logical content - and therefore the required answer - unchanged
+            return ("ok", repr([e.get("data_file") for e in reader.read_manifest(view, "f")]))
         return ("ok", repr(reader.canon_rows(reader.read_parquet(view, "f"))))
     except reader.ReadError:
         return ("unparseable", None)
@@ -699,6 +702,65 @@ def collapse(fails: List[Tuple[List[Any], Dict[str, Any]]]) -> List[Tuple[Dict[s
     return out
 
 
+def dup_worker(payload: Tuple[Any, ...]) -> Dict[str, Any]:
+    """A data file listed twice by the current snapshot - once by the commit that wrote it (with its checksum), once
+    more through append_files with a hand-built record that carries no checksum.  With verification on, any change
+    to the file's bytes must still raise: whichever entry the read plan keeps, the recorded checksum is known."""
+    import dataclasses
+
+    from datashard import create_table, load_table
+    from dsmc.localfs import install_local_seams
+
+    tier, seed, order = payload
+    rep = Report(PROP, tier, seed, LEVEL)
+    ENV.reset(0)
+    install_local_seams()
+    use_local()
+    root = fresh_dir(_fixed_len_name(f"c14-dup-{order}"))
+    t = create_table(root, schema())
+    t.append_records([row(i) for i in range(0, 4)])
+    t.append_records([row(i) for i in range(10, 14)])
+    dfs = t._get_all_data_files()
+    bare = dataclasses.replace(dfs[0], checksum=None, lower_bounds=None, upper_bounds=None,
+                               file_path=("/" + dfs[0].file_path.lstrip("/")) if order == "slash" else dfs[0].file_path)
+    with t.new_transaction() as tx:
+        tx.append_files([bare])
+    t = load_table(root)
+    view = reader.LocalView(root)
+    rel = dfs[0].file_path.lstrip("/")
+    sib = dfs[1].file_path.lstrip("/")
+    orig, sibraw = view.get(rel), view.get(sib)
+    want = {api: call_api(t, api, True if api != "row_count" else None) for api in APIS}
+    st = structure("data", orig)
+    n = len(orig)
+    offs = sorted({int(i * (n - 1) / 23) for i in range(24)} | set(st["cuts"]))
+    specs: List[Tuple[Any, ...]] = [("flip", o, 0x01) for o in offs if 0 <= o < n] + [("sibling", 0)]
+    for spec in specs:
+        data = apply_spec(orig, spec, [sibraw])
+        with open(os.path.join(root, rel), "wb") as f:
+            f.write(data)
+        for api, v in CONFIGS:
+            if v is False or api in ("row_count", "scan_filter"):
+                continue  # row_count reads no data file; the filter of scan_filter prunes this file (not read at all)
+            try:
+                out = ("ok", call_api(t, api, v))
+            except HarnessError:
+                raise
+            except Exception as e:  # noqa
+                out = ("raise", type(e).__name__)
+            rep.add("evaluations")
+            rep.add("doubly_registered_file_reads")
+            rep.nontrivial(("dup", order, spec, api, v))
+            if out[0] == "ok":
+                rep.violation({"backend": "local", "file_class": "data", "damage": damage_name(spec), "api": "all",
+                               "verify": "on", "problem": "altered_bytes_not_detected_for_a_file_registered_twice"},
+                              {"registration_order": order, "spec": list(spec), "api": api, "verify": str(v),
+                               "returned_equals_undamaged": out[1] == want[api]})
+    with open(os.path.join(root, rel), "wb") as f:
+        f.write(orig)
+    return rep.part()
+
+
 def run(tier: str, seed: int) -> Report:
     rep = Report(PROP, tier, seed, LEVEL)
     fails: List[Tuple[List[Any], Dict[str, Any]]] = []
@@ -708,6 +770,8 @@ def run(tier: str, seed: int) -> Report:
     for key, det, cnt in collapse(fails):
         rep.violation(key, det)
         rep.violations[json.dumps(key, sort_keys=True)]["count"] = cnt
+    for part in pmap("checks.c14", "dup_worker", [(tier, seed, o) for o in ("same", "slash")]):
+        rep.merge(part)
     rep.cov["read_api_configurations"] = len(CONFIGS)
     rep.cov["files_reachable_from_current_snapshot"] = 7
     rep.cov["exhaustive"] = not rep.caps
@@ -738,6 +802,8 @@ def run(tier: str, seed: int) -> Report:
         "damage is planted between calls on a handle opened before the damage; files are never modified during a call",
         "the version pointer (metadata.version-hint.text) is not a file 'reachable from the current snapshot': it is faulted "
         "(E3a) but not damaged here (C10 covers it)",
+        "logical content of a manifest = its data-file records; damage that only changes an entry's status / adding snapshot / "
+        "sequence numbers and still parses must not change any answer",
         "a manifest replaced by a well-formed legacy JSON document (e.g. '{}') is not enumerated: the library documents JSON "
         "manifests as a supported legacy format",
     ]
